@@ -5,8 +5,9 @@ Import ListNotations.
 From Verif Require Import Facts_vm FramesM Frames_proofs Frames_lifo.
 
 (* Full statement: on every action tree (calls, defers of interpreted and
-   native functions, panics, recover(), defer recover(), returns, Stop, Fatal,
-   nested to any depth) the frame machine of the VM and Go's semantics agree on
+   native functions, native functions that call back a Scriggo function value,
+   panics, recover(), defer recover(), returns, Stop, Fatal, nested to any
+   depth) the frame machine of the VM and Go's semantics agree on
    the sequence of executed hook bodies, on every value returned by recover(),
    and on what Run does at the end (nil / the PanicError chain with messages,
    recovered flags and lines / the error given to Stop / a panic with the
@@ -24,6 +25,12 @@ Definition w_dropped_panic : func :=
   mkfunc [IDeferFn [ICall [IDeferFn [IRecover false] []; IPanic 4] [(1, 7%N)]] [];
           IDeferFn [IPanic 1] [(0, 11%N)]; IPanic 3] [(2, 13%N)].
 
+(* a panic that leaves a function called back by native code: Go unwinds through
+   the native frame and the caller can recover it; the VM makes Run panic with
+   the text of the chain (known finding callback-panic-is-fatal) *)
+Definition w_callback_panic : func :=
+  mkfunc [IDeferFn [IRecover false] []; ICallback [IPanic 7] [(0, 3%N)]] [].
+
 Theorem C12_refuted : ~ C12_statement.
 Proof. exact frames_refine_spec_refuted. Qed.
 Print Assumptions C12_refuted.
@@ -38,7 +45,14 @@ Theorem C12_refuted_dropped_panic :
   go_run 60 w_dropped_panic = Some (OPanic [(1, false, Some 11); (3, false, Some 13)]%N, [ERecover (Some 4%N)]).
 Proof. exact dropped_panic_witness. Qed.
 
-(* What is proved, for every tree / every state of the machine. *)
+Theorem C12_refuted_callback_panic :
+  vm_run 40 w_callback_panic = Some (OCbPanic [(7, false)]%N, []) /\
+  go_run 40 w_callback_panic = Some (ONil, [ERecover (Some 7%N)]).
+Proof. exact callback_panic_witness. Qed.
+
+(* What is proved, for every tree / every state of the machine.  The trees
+   include callbacks: Stop, Fatal and panics inside a Scriggo function that a
+   native function calls back (to any depth of VMs). *)
 
 (* (1) Stop: once a native function has called Stop(e), no hook body, deferred
    or not, is executed any more, and Run returns e itself. *)
@@ -59,6 +73,29 @@ Theorem C12_fatal_propagates :
 Proof. exact fatal_propagates. Qed.
 Print Assumptions C12_fatal_propagates.
 
+(* (2b) the same through callbacks, on the code path of callable.Value: the
+   error of a Stop or Fatal raised inside the VM of a callback reaches Run
+   unchanged (no step of a suspended VM runs in between: the machine ends at
+   once, whatever the stack of suspended VMs), and a panic that is not
+   recovered inside the callback ends the run with OCbPanic whatever the
+   callers have deferred *)
+Theorem C12_callback_stop_fatal_pass_through :
+  forall s f k,
+    smode s = MExec -> sfn s = Some f -> fetch f (spc s) = Some (INat k) ->
+    (forall e, k = NStop e -> exists tr, step s = Fin (OStop e) (EStop e :: tr) /\ tr = str s) /\
+    (forall v, k = NFatal v -> exists tr, step s = Fin (ORunPanics v) (EFatal v :: tr) /\ tr = str s).
+Proof. exact callback_stop_fatal_pass_through. Qed.
+
+Theorem C12_callback_panic_is_fatal :
+  forall s p c, souter s <> [] -> schain s = p :: c ->
+    finish s = Fin (OCbPanic (cb_view (p :: c))) (str s).
+Proof. exact callback_panic_is_fatal. Qed.
+
+Theorem C12_callback_returns_to_caller :
+  forall s sv rest, souter s = sv :: rest -> schain s = [] ->
+    finish s = Next (mkstate MExec (Some (vfn sv)) (vpc sv) (vcalls sv) (vchain sv) (str s) (sraised s) rest).
+Proof. exact callback_returns_to_caller. Qed.
+
 (* (3) The chain Run returns: the next links go from the newest panic to the
    oldest (strictly decreasing serial numbers of raising). *)
 Theorem C12_chain_order :
@@ -71,8 +108,8 @@ Print Assumptions C12_chain_order.
    when the nearest frame that is not a deferred one is a panicked frame
    (recover_search_nearest), which becomes recovered. *)
 Theorem C12_recovered_only_by_recover :
-  forall s s' p', step s = Next s' -> In p' (schain s') -> precovered p' = true ->
-  (exists p, In p (schain s) /\ pser p = pser p' /\ precovered p = true) \/
+  forall s s' p', step s = Next s' -> In p' (all_chains s') -> precovered p' = true ->
+  (exists p, In p (all_chains s) /\ pser p = pser p' /\ precovered p = true) \/
   (exists f down i1 i ps,
      smode s = MExec /\ sfn s = Some f /\ fetch f (spc s) = Some (IRecover down) /\
      schain s' = p' :: ps /\
@@ -93,7 +130,8 @@ Theorem C12_panic_position :
   smode s = MExec -> sfn s = Some f -> fetch f (spc s) = Some ins -> panics_with ins v ->
   (exists s', step s = Next s' /\
      schain s' = mkprec v false (debug_line f (spc s)) (sraised s) :: schain s) \/
-  (exists tr, step s = Fin (OPanic ((v, false, debug_line f (spc s)) :: chain_view (schain s))) tr).
+  (exists tr, step s = Fin (OPanic ((v, false, debug_line f (spc s)) :: chain_view (schain s))) tr) \/
+  (exists tr, souter s <> [] /\ step s = Fin (OCbPanic ((v, false) :: cb_view (schain s))) tr).
 Proof. exact panic_position. Qed.
 Print Assumptions C12_panic_position.
 
@@ -131,4 +169,23 @@ Proof. vm_compute. reflexivity. Qed.
 
 Example C12_example_stop :
   vm_run 50 (mkfunc [IDeferNat (NBody 1); INat (NStop 4)] []) = Some (OStop 4, [EStop 4%N]).
+Proof. vm_compute. reflexivity. Qed.
+
+(* Stop and Fatal called inside a function that native code calls back, two VMs deep *)
+Example C12_example_callback_stop :
+  vm_run 80 (mkfunc [IDeferNat (NBody 1);
+                     ICallback [INat (NBody 2); ICallback [IDeferNat (NBody 6); INat (NStop 4)] []; INat (NBody 3)] [];
+                     INat (NBody 5)] [])
+  = Some (OStop 4, [EBody 2%N; EStop 4%N]).
+Proof. vm_compute. reflexivity. Qed.
+
+Example C12_example_callback_fatal :
+  vm_run 80 (mkfunc [IDeferFn [IRecover false] []; ICallback [INat (NFatal 6); INat (NBody 3)] []; INat (NBody 5)] [])
+  = Some (ORunPanics 6, [EFatal 6%N]).
+Proof. vm_compute. reflexivity. Qed.
+
+(* a callback that returns: the caller goes on; a panic recovered inside the callback stays inside *)
+Example C12_example_callback_returns :
+  vm_run 80 (mkfunc [ICallback [IDeferFn [IRecover false] []; IPanic 7] [(1, 3%N)]; INat (NBody 5)] [])
+  = Some (ONil, [ERecover (Some 7%N); EBody 5%N]).
 Proof. vm_compute. reflexivity. Qed.
